@@ -1,6 +1,7 @@
 package main
 
 import (
+	"bytes"
 	"encoding/hex"
 	"fmt"
 	"strings"
@@ -20,6 +21,40 @@ func init() {
 		if ok {
 			d, _, _ := implDecode(c, out)
 			res += fmt.Sprintf(" decoded=%q", d)
+		}
+		return res
+	}
+	replayExtra["multipart"] = func(f []string) string {
+		var dc int
+		fmt.Sscanf(f[1], "%d", &dc)
+		raw := []byte{}
+		if len(f) > 2 {
+			raw, _ = hex.DecodeString(f[2])
+		}
+		parts, err := pdu.ComposeMultipartShortMessage(string(raw), coding.DataCoding(dc), 0x1234)
+		res := fmt.Sprintf("text=%q data_coding=%d err=%v parts=%d:", raw, dc, err, len(parts))
+		for _, p := range parts {
+			d, _, _ := implDecode(coding.DataCoding(dc), p.Message)
+			res += fmt.Sprintf(" [%x -> %q]", p.Message, d)
+		}
+		return res
+	}
+	replayExtra["compose-history"] = func(f []string) string {
+		var m pdu.ShortMessage
+		res := ""
+		if len(f) > 1 && f[1] != "-" {
+			var dc int
+			var hx string
+			fmt.Sscanf(strings.Replace(f[1], ":", " ", 1), "%d %s", &dc, &hx)
+			msg, _ := hex.DecodeString(hx)
+			m = pdu.ShortMessage{DataCoding: coding.DataCoding(dc), Message: msg}
+			res += fmt.Sprintf("preset data_coding=%d octets=%x; ", dc, msg)
+		}
+		for _, h := range f[2:] {
+			raw, _ := hex.DecodeString(strings.TrimSuffix(h, "-"))
+			err := m.Compose(string(raw))
+			back, perr := m.Parse()
+			res += fmt.Sprintf("Compose(%q) err=%v data_coding=%d octets=%x Parse=%q err=%v; ", raw, err, byte(m.DataCoding), m.Message, back, perr)
 		}
 		return res
 	}
@@ -291,6 +326,56 @@ func corrC09(r *Run) {
 		"ְ", "АЀ", "日本©", "가¢", "", "@", "€", "abcdef€", "abcde€", "\x00abc", "\U0001F48A"} {
 		emit(s, "corpus")
 	}
+	// histories on one reused ShortMessage: corpus first (a non-zero data_coding, then GSM 7-bit text), then random
+	for _, h := range [][]string{{"Привет", "hello"}, {"\U0001F48A take two", "ok, thanks"}, {"안녕", "ΨΠΦ", "日本に行きたい。", "bye"},
+		{"hello", "Привет", "hello"}, {"Ā", "abc"}, {"שלום", "abcdefg\r", "é"}} {
+		cx.checkHistory(0, nil, false, h, "history corpus")
+	}
+	cx.checkHistory(8, []byte{0, 'h', 0, 'i'}, true, []string{"hello yourself"}, "history corpus: received message reused")
+	cx.checkHistory(0xF5, []byte("8-bit"), true, []string{"ok", "Жук"}, "history corpus: received message reused")
+	drawText := func(p pool) string {
+		ln := r.Rng.Intn(24)
+		if r.Rng.Intn(5) == 0 {
+			ln = r.Rng.Intn(3)
+		}
+		var rs []rune
+		for k := 0; k < ln; k++ {
+			rs = append(rs, p.good[r.Rng.Intn(len(p.good))])
+		}
+		if p.dc == coding.GSM7BitCoding && r.Rng.Intn(6) == 0 {
+			rs = append(rs, '\r')
+		}
+		if len(p.bad) > 0 && r.Rng.Intn(12) == 0 {
+			rs = append(rs, p.bad[r.Rng.Intn(len(p.bad))])
+		}
+		return string(rs)
+	}
+	nh := r.N(60, 1500)
+	for i := 0; i < nh; i++ {
+		k := 2 + r.Rng.Intn(3)
+		var texts []string
+		prev := -1
+		for j := 0; j < k; j++ {
+			q := r.Rng.Intn(len(pools))
+			if q == prev { // different repertoires in consecutive steps
+				q = (q + 1 + r.Rng.Intn(len(pools)-1)) % len(pools)
+			}
+			if j == k-1 && i%2 == 0 {
+				q = 0 // end on GSM 7-bit text (data_coding 0) after something else
+				if prev == 0 {
+					texts[j-1] = drawText(pools[1+r.Rng.Intn(len(pools)-1)])
+				}
+			}
+			prev = q
+			texts = append(texts, drawText(pools[q]))
+		}
+		if i%5 == 4 {
+			pdc := []byte{8, 3, 6, 0xF1, 0xF5, 0x0E, 0xC8, 4}[r.Rng.Intn(8)]
+			cx.checkHistory(pdc, r.Rng.Bytes(r.Rng.Intn(12)), true, texts, "history: received message reused")
+		} else {
+			cx.checkHistory(0, nil, false, texts, fmt.Sprintf("history of %d Compose calls", k))
+		}
+	}
 	n := r.N(22, 800)
 	for _, p := range pools {
 		name := labelName(p.dc)
@@ -340,4 +425,108 @@ func corrC09(r *Run) {
 			emit(string(rs), bucket)
 		}
 	}
+}
+
+// ---------------------------------------------------------------- histories on ONE reused ShortMessage value
+// A ShortMessage is filled in, sent and filled in again, or was read from the
+// wire and is reused for the answer: Compose must leave label and octets that
+// Parse turns back into the text whatever the value held before.
+type histStep struct {
+	text      string
+	status    int // 0 composed, 1 does not fit, 2 encoder error, 3 panic
+	dc        byte
+	octets    []byte
+	parsed    string
+	parseOK   bool
+	parsePanic bool
+}
+
+func (cx *c09ctx) checkHistory(presetDC byte, presetMsg []byte, usePreset bool, texts []string, bucket string) {
+	r := cx.r
+	var m pdu.ShortMessage
+	in := "compose-history "
+	if usePreset {
+		// a message as ReadFrom leaves it: data_coding, sm_default_msg_id 0, sm_length, octets
+		frame := append([]byte{presetDC, 0, byte(len(presetMsg))}, presetMsg...)
+		if _, err := m.ReadFrom(bytes.NewReader(frame)); err != nil {
+			m = pdu.ShortMessage{DataCoding: coding.DataCoding(presetDC), Message: presetMsg}
+		}
+		in += fmt.Sprintf("%d:%s", presetDC, hex.EncodeToString(presetMsg))
+	} else {
+		in += "-"
+	}
+	for _, t := range texts {
+		in += " " + hex.EncodeToString([]byte(t))
+		if t == "" {
+			in += "-"
+		}
+	}
+	r.Count(in, true, bucket)
+	var steps []histStep
+	for k, t := range texts {
+		st := histStep{text: t}
+		var err error
+		pan, _ := guard(func() { err = m.Compose(t) })
+		where := fmt.Sprintf("step %d of %d", k+1, len(texts))
+		switch {
+		case pan:
+			st.status = 3
+			r.Fail("compose-history/panic", "Compose panicked on a reused ShortMessage", in, "panic at "+where, "a message or an error")
+		case err == pdu.ErrShortMessageTooLarge:
+			st.status = 1
+		case err != nil:
+			st.status = 2
+			c := coding.BestCoding(t)
+			x, found := firstRejected(c, t)
+			if found && inRanges(cx.known[c], x) {
+				r.Fail("compose/"+labelName(c)+"/alphabet-admits-unencodable-rune", "Compose fails for lack of an encoding",
+					in, fmt.Sprintf("%s: error %v (data_coding %d rejects %s)", where, err, byte(c), uplus(x)), "a composed message")
+			} else {
+				r.Fail("compose-history/"+labelName(c)+"/unencodable/"+uplus(x), "Compose fails for lack of an encoding",
+					in, fmt.Sprintf("%s: error %v", where, err), "a composed message")
+			}
+		default:
+			var perr error
+			ppan, _ := guard(func() { st.parsed, perr = m.Parse() })
+			st.parseOK, st.parsePanic = perr == nil, ppan
+			if ppan || perr != nil || st.parsed != t {
+				obs := fmt.Sprintf("%s: Compose(%q) left data_coding=%d octets=%x, Parse gave %q err=%v panic=%v", where, t, byte(m.DataCoding), m.Message, st.parsed, perr, ppan)
+				if m.DataCoding == coding.GSM7BitCoding && coding.BestCoding(t) == coding.GSM7BitCoding && perr == nil && !ppan &&
+					strings.HasSuffix(t, "\r") && st.parsed == t[:len(t)-1] && gsm7SeptetCount(t) > 0 && gsm7SeptetCount(t)%8 == 0 {
+					r.Fail("compose/gsm7/final-CR-at-8k-septets", "the composed octets parse back without the final CR", in, obs, fmt.Sprintf("parsed=%q", t))
+				} else {
+					r.Fail("compose-history/"+labelName(coding.BestCoding(t))+"/parses-to-different-text",
+						"after Compose on a reused ShortMessage the stored label and octets parse back to a different text", in, obs, fmt.Sprintf("parsed=%q", t))
+				}
+			}
+		}
+		st.dc, st.octets = byte(m.DataCoding), append([]byte{}, m.Message...)
+		steps = append(steps, st)
+	}
+	// the model on the same history: state after every step and what Parse returns from it
+	var ts, want []string
+	for _, t := range texts {
+		ts = append(ts, coqRunes([]rune(t)))
+	}
+	for _, st := range steps {
+		parsed := "None"
+		if st.status == 0 {
+			parsed = "(Some " + coqOutRunes(st.parsed, st.parseOK, st.parsePanic) + ")"
+		}
+		want = append(want, fmt.Sprintf("(%d, %s, %d, %s)", st.dc, coqHex(st.octets), st.status, parsed))
+	}
+	r.Case(in, fmt.Sprintf("history_eq (compose_history (%d, %s) %s) %s", byte(presetOr(usePreset, presetDC)), coqHex(presetOrMsg(usePreset, presetMsg)), coqList(ts), coqList(want)))
+}
+
+func presetOr(use bool, dc byte) byte {
+	if use {
+		return dc
+	}
+	return 0
+}
+func presetOrMsg(use bool, b []byte) []byte {
+	if use {
+		return b
+	}
+	return nil
 }
